@@ -256,6 +256,13 @@ class CompilationEngine:
         #  need to store and check if any dependencies have changed.
         self.reset()
 
+        # Nothing that mentions a temporary variable survives the reset, so restart
+        # their numbering: the names (and everything derived from them, like the port
+        # order of basic blocks) must not depend on earlier calls.
+        from guppylang_internals.cfg.builder import tmp_vars
+
+        tmp_vars.reset()
+
         defn = DEF_STORE.raw_defs[id]
         self.to_check_worklist = {
             defn.id: (self._parse(defn) if isinstance(defn, ParsableDef) else defn)
